@@ -242,9 +242,9 @@ def generate(rng, tier="quick"):
     return {"property": PROPERTY, "worlds": worlds, "actors": actors, "schedule": schedule,
             "more_schedules": more, "requests": rng.random() < 0.3, "share_instances": rng.random() < 0.2,
             "warnings_are_errors": rng.random() < 0.1,
-            # nobody shares a root or hands over a store: each thread may then build its own validator itself
-            "late_construct": bool(not shared and all(a["store_from"] is None and a["class_from"] is None and a["fc_from"] is None for a in actors)
-                                   and rng.random() < 0.35)}
+            # nobody shares a root or hands over a store (a class or a FormatChecker of an earlier actor exists before any
+            # resolver does): each thread may then build its own resolver and validator itself
+            "late_construct": bool(not shared and all(a["store_from"] is None for a in actors) and rng.random() < 0.4)}
 
 
 # --------------------------------------------------------------------------- execution (children)
